@@ -173,6 +173,151 @@ theorem compute_edges_links_each_segment_once (N : Nat) (isDefault : Bool) (dirN
       simp [this] at ha
     · simp at hb
 
+/-! ### All edges together -/
+
+/-- the invariant of the whole axis: every edge's ring is a ring, rings are pairwise disjoint, and only linked
+segments are members -/
+def AxisInv (g : Axis) : Prop :=
+  (∀ j, j < g.count → RingInv (g.ring j)) ∧
+  (∀ i j, i < g.count → j < g.count → i ≠ j → ∀ x, x ∈ (g.edge i).ms → x ∉ (g.edge j).ms) ∧
+  (∀ j, j < g.count → ∀ x, x ∈ (g.edge j).ms → x ∈ g.linked)
+
+theorem ringInv_last_mem (r : Ring) (h : RingInv r) : r.last ∈ r.ms := by
+  obtain ⟨_, hhd, _, _⟩ := h
+  cases hms : r.ms with
+  | nil => rw [hms] at hhd; simp at hhd
+  | cons b rest => rw [hms] at hhd; simp at hhd; simp [hhd]
+
+/-- one admissible operation of `compute_edges` keeps the invariant of the whole axis: on the edge it targets it is
+`append`, on every other edge it is two foreign writes (at the fresh segment and at the target's old `last_ix`), both
+outside that edge's ring -/
+theorem axis_step (g : Axis) (op : GOp) (hI : AxisInv g) (hok : op.ok g) : AxisInv (op.run g) := by
+  obtain ⟨hR, hD, hL⟩ := hI
+  have fresh : ∀ j, j < g.count → op.seg ∉ (g.edge j).ms := by
+    intro j hj hm
+    have := hL j hj _ hm
+    cases op <;> simp [GOp.ok, GOp.seg] at hok this <;> (first | exact hok this | exact hok.1 this)
+  cases op with
+  | newEdge seg =>
+    simp only [GOp.seg] at fresh
+    refine ⟨?_, ?_, ?_⟩
+    · intro j hj
+      simp only [GOp.run] at hj ⊢
+      by_cases hjc : j = g.count
+      · subst hjc
+        have : (GOp.run g (.newEdge seg)).ring g.count = newEdge g.next seg := by
+          simp [GOp.run, Axis.ring, newEdge]
+        simpa [GOp.run] using this ▸ edge_ring_new g.next seg
+      · have hj' : j < g.count := by omega
+        have : (GOp.run g (.newEdge seg)).ring j = Op.run (g.ring j) (.foreign seg (some seg)) := by
+          simp [GOp.run, Axis.ring, Op.run, foreign, hjc]
+        simpa [GOp.run] using this ▸ edge_ring_step (g.ring j) (.foreign seg (some seg)) (hR j hj') (fresh j hj')
+    · intro i j hi hj hij x hx
+      simp only [GOp.run] at hi hj hx ⊢
+      by_cases hic : i = g.count <;> by_cases hjc : j = g.count
+      · omega
+      · simp [hic] at hx; subst hx; simp [hjc]; exact fresh j (by omega)
+      · simp [hic, hjc] at hx ⊢; intro h; subst h; exact fresh i (by omega) hx
+      · simp [hic, hjc] at hx ⊢; exact hD i j (by omega) (by omega) hij x hx
+    · intro j hj x hx
+      simp only [GOp.run] at hj hx ⊢
+      by_cases hjc : j = g.count
+      · simp [hjc] at hx; simp [hx]
+      · simp [hjc] at hx; exact List.mem_cons_of_mem _ (hL j (by omega) x hx)
+  | append k seg =>
+    simp only [GOp.seg] at fresh
+    obtain ⟨hfr, hk⟩ := hok
+    have hlast := ringInv_last_mem (g.ring k) (hR k hk)
+    refine ⟨?_, ?_, ?_⟩
+    · intro j hj
+      simp only [GOp.run] at hj
+      by_cases hjk : j = k
+      · subst hjk
+        have : (GOp.run g (.append j seg)).ring j = Op.run (g.ring j) (.append seg) := by
+          simp [GOp.run, Axis.ring, Op.run, FontVerif.EdgeRing.append]
+        exact this ▸ edge_ring_step (g.ring j) (.append seg) (hR j hj) (fresh j hj)
+      · have : (GOp.run g (.append k seg)).ring j =
+            Op.run (Op.run (g.ring j) (.foreign seg (some (g.edge k).first))) (.foreign (g.edge k).last (some seg)) := by
+          simp [GOp.run, Axis.ring, Op.run, foreign, hjk]
+        rw [this]
+        apply edge_ring_step _ _ (edge_ring_step (g.ring j) (.foreign seg (some (g.edge k).first)) (hR j hj) (fresh j hj))
+        show (g.edge k).last ∉ (g.edge j).ms
+        exact hD k j hk hj (Ne.symm hjk) _ hlast
+    · intro i j hi hj hij x hx
+      simp only [GOp.run] at hi hj hx ⊢
+      by_cases hik : i = k <;> by_cases hjk : j = k
+      · omega
+      · simp [hik, hjk] at hx ⊢
+        rcases hx with h | h
+        · subst h; exact fresh j hj
+        · exact hD k j hk hj (by omega) x h
+      · simp [hik, hjk] at hx ⊢
+        refine ⟨fun h => by subst h; exact fresh i hi hx, hD i k hi hk (by omega) x hx⟩
+      · simp [hik, hjk] at hx ⊢; exact hD i j hi hj hij x hx
+    · intro j hj x hx
+      simp only [GOp.run] at hj hx ⊢
+      by_cases hjk : j = k
+      · simp [hjk] at hx
+        rcases hx with h | h
+        · simp [h]
+        · exact List.mem_cons_of_mem _ (hL k hk x h)
+      · simp [hjk] at hx; exact List.mem_cons_of_mem _ (hL j hj x hx)
+
+/-- **Every edge's ring is a ring after any admissible sequence of `compute_edges` operations** — the foreign writes
+are no longer a hypothesis: they follow from freshness and disjointness. -/
+theorem axis_invariant (ops : List GOp) : ∀ g : Axis, AxisInv g → AllOk g ops → AxisInv (ops.foldl GOp.run g) := by
+  induction ops with
+  | nil => intro g h _; exact h
+  | cons op rest ih => intro g hI hok; exact ih _ (axis_step g op hI hok.1) hok.2
+
+/-- a sequence of operations whose segment indices never repeat (`compute_edges_links_each_segment_once`) and whose
+append targets exist is admissible from the empty axis -/
+theorem allOk_of_nodup (ops : List GOp) : ∀ g : Axis,
+    (∀ x, x ∈ g.linked → x ∉ ops.map GOp.seg) → (ops.map GOp.seg).Nodup →
+    (∀ (pre : List GOp) (k seg : Nat) (post : List GOp), ops = pre ++ .append k seg :: post →
+      k < (pre.foldl GOp.run g).count) → AllOk g ops := by
+  induction ops with
+  | nil => intro g _ _ _; trivial
+  | cons op rest ih =>
+    intro g hdis hnd hk
+    simp only [List.map_cons, List.nodup_cons] at hnd
+    have hfresh : op.seg ∉ g.linked := fun h => hdis _ h (by simp)
+    refine ⟨?_, ih (op.run g) ?_ hnd.2 ?_⟩
+    · cases op with
+      | newEdge seg => exact hfresh
+      | append k seg => exact ⟨hfresh, hk [] k seg rest rfl⟩
+    · intro x hx
+      have : x = op.seg ∨ x ∈ g.linked := by
+        cases op <;> simpa [GOp.run, GOp.seg] using hx
+      rcases this with h | h
+      · subst h; exact hnd.1
+      · intro hm; exact hdis x h (by simp [hm])
+    · intro pre k seg post heq
+      exact hk (op :: pre) k seg post (by simp [heq])
+
+/-- **All ring walks of the final state terminate**: after `compute_edges` has linked any sequence of pairwise
+distinct segment indices (appends only to existing edges), for EVERY edge the walks of `link_segments_to_edges` /
+`compute_edge_properties` from its `first_ix` break within its number of segments, and so does the CJK link walk. -/
+theorem axis_walks_terminate (next0 : Nat → Option Nat) (ops : List GOp) (hnd : (ops.map GOp.seg).Nodup)
+    (hk : ∀ (pre : List GOp) (k seg : Nat) (post : List GOp), ops = pre ++ .append k seg :: post →
+      k < (pre.foldl GOp.run (Axis.empty next0)).count) :
+    let g := ops.foldl GOp.run (Axis.empty next0)
+    ∀ j, j < g.count → ∀ x, x ∈ (g.edge j).ms →
+      walk g.next (g.edge j).last (g.edge j).ms.length x = true ∧
+      ∀ stop valid, walkCjk g.next (g.edge j).first stop valid (g.edge j).ms.length x = true := by
+  intro g j hj x hx
+  have hI : AxisInv g := axis_invariant ops (Axis.empty next0)
+    ⟨fun j hj => by simp [Axis.empty] at hj, fun i j hi => by simp [Axis.empty] at hi,
+     fun j hj => by simp [Axis.empty] at hj⟩
+    (allOk_of_nodup ops _ (by simp [Axis.empty]) hnd hk)
+  exact ⟨edge_ring_walk_terminates (g.ring j) (hI.1 j hj) x hx,
+    fun stop valid => edge_ring_cjk_walk_terminates (g.ring j) (hI.1 j hj) stop valid x hx⟩
+
+/-- two edges built interleaved: edge 0 = 7 → 3 → 5, edge 1 = 2 → 9; every ring closes -/
+example : ([GOp.newEdge 7, .newEdge 2, .append 0 3, .append 1 9, .append 0 5].foldl GOp.run (Axis.empty fun _ => none)).next 5 = some 7 ∧ ([GOp.newEdge 7, .newEdge 2, .append 0 3, .append 1 9, .append 0 5].foldl GOp.run (Axis.empty fun _ => none)).next 7 = some 3 ∧
+    ([GOp.newEdge 7, .newEdge 2, .append 0 3, .append 1 9, .append 0 5].foldl GOp.run (Axis.empty fun _ => none)).next 9 = some 2 := by decide
+example : (([GOp.newEdge 7, .newEdge 2, .append 0 3, .append 1 9, .append 0 5].foldl GOp.run (Axis.empty fun _ => none)).edge 0).last = 5 ∧ ([GOp.newEdge 7, .newEdge 2, .append 0 3, .append 1 9, .append 0 5].foldl GOp.run (Axis.empty fun _ => none)).count = 2 := by decide
+
 example : walkCjk (append (append (newEdge (fun _ => none) 7) 3) 9).next 7 (fun _ => false) (fun _ => true) 3 7 = true := by decide
 example : walkCjk (append (append (newEdge (fun _ => none) 7) 3) 9).next 7 (fun _ => false) (fun _ => true) 2 7 = false := by decide
 
